@@ -58,6 +58,8 @@ class SymNCO(REINFORCE):
 
         # Pass no baseline to superclass since there are multiple custom baselines
         super().__init__(env, policy, baseline, **kwargs)
+        # the superclass stored baseline="no" among the hyper-parameters: keep our own name so that checkpoints reload
+        self.hparams["baseline"] = "symnco"
 
         self.num_starts = num_starts
         self.num_augment = num_augment
